@@ -39,4 +39,4 @@ LEVEL_TEXT = ('Bounded symbolic race check: the -fopenmp IR of each parallel reg
               'EVERY iteration pair and hence every thread count and schedule. Grid shapes are concrete and bounded.')
 LEVEL_NOTE = 'happens-before from the OpenMP calls in clang\'s lowering (source-level semantics, not libgomp); concrete grid shapes; regions analysed separately; no native TSan replay'
 TECHNIQUE = 'symbolic execution of -fopenmp LLVM IR (llsym race mode: symbolic loop iteration) + SMT (z3, integer arithmetic) over access summaries'
-DESIGN_REF = 'DESIGN.md section 6/C11'
+DESIGN_REF = 'DESIGN.md section 0 (status as built: 0.2, 0.5, 0.6) and section 6/C11 (design)'
